@@ -137,6 +137,8 @@ impl Report {
         for v in &violations {
             groups.entry(v.signature.clone()).or_default().push(v);
         }
+        // replay files of earlier runs of this property are stale now
+        let _ = std::fs::remove_dir_all(format!("{VERIF_DIR}/replays/{}", self.id));
         let mut new_count = 0u64;
         let mut known_count = 0u64;
         let mut lines = 0;
